@@ -26,7 +26,7 @@ Section FiltChainAddr.
     | FE i => navf i lv
     | FC i o lit => navp (ctest i o (lit_num parse_float lit)) lv
     | FN i => navp (fun x => negb (reaches i x)) lv
-    | FQ d => navp (dnf_test parse_float root d) lv
+    | FQ d => navp (dnf_test parse_float root (kids (snd lv)) d) lv
     end.
   Fixpoint nav_allf (root : value) (l : list fstep) (lv : list pstep * value) : list (list pstep * value) :=
     match l with [] => [lv] | x :: r => flat_map (nav_allf root r) (nav1f root x lv) end.
@@ -146,13 +146,13 @@ Section FiltChainAddr.
   Proof. revert lv. induction steps as [|x r IH]; intros lv; [reflexivity|]. cbn [map nav_allf nav_all nav1f]. apply flat_map_ext'. exact IH. Qed.
 
   (* steps whose filters mention the document root nowhere select the same whatever the root is *)
-  Definition bq_rootfree (b : bq) : bool := match b with BRE _ | BRN _ | BCR _ _ _ => false | _ => true end.
+  Definition bq_rootfree (b : bq) : bool := match b with BRE _ | BRN _ | BCR _ _ _ | BPQ _ _ _ => false | _ => true end.
   Definition fstep_rootfree (x : fstep) : bool := match x with FQ d => forallb (forallb bq_rootfree) d | _ => true end.
   Lemma nav1f_rootfree root root' x lv : fstep_rootfree x = true -> nav1f root x lv = nav1f root' x lv.
   Proof.
     intros H. destruct x as [y|i|i o lit|i|d]; cbn [nav1f]; try reflexivity. cbn [fstep_rootfree] in H.
-    assert (E : forall v, dnf_test parse_float root d v = dnf_test parse_float root' d v).
-    { intros v. unfold dnf_test. induction d as [|c d IH]; [reflexivity|]. cbn [forallb] in H. apply andb_true_iff in H. destruct H as [H1 H2].
+    assert (E : forall vals v, dnf_test parse_float root vals d v = dnf_test parse_float root' vals d v).
+    { intros vals v. unfold dnf_test. induction d as [|c d IH]; [reflexivity|]. cbn [forallb] in H. apply andb_true_iff in H. destruct H as [H1 H2].
       cbn [existsb]. rewrite (IH H2). f_equal. clear -H1. induction c as [|b c IH]; [reflexivity|]. cbn [forallb] in H1. apply andb_true_iff in H1. destruct H1 as [Hb Hc].
       cbn [forallb]. rewrite (IH Hc). f_equal. destruct b; try discriminate Hb; reflexivity. }
     unfold navp. destruct (snd lv); try reflexivity.
